@@ -37,6 +37,22 @@ def scope_of_context(prog, fn, ce):
         rets = [n for n in walk_no_nested(g.node) if isinstance(n, ast.Return)]
         falls_through = not rets or not isinstance(g.body()[-1], (ast.Return, ast.Raise, ast.If))
         good = [r for r in rets if isinstance(r.value, ast.Call) and prog.resolve(g.module, r.value.func) == SET_RANDOM_STATE]
+        null = [r for r in rets if isinstance(r.value, ast.Call) and prog.resolve(g.module, r.value.func) in ('contextlib.nullcontext', 'contextlib.suppress')
+                and not r.value.args]
+        if null and good and len(good) + len(null) == len(rets) and not falls_through:
+            # a no-op scope is accepted only where the model has no random state of its own (`<x>.random_state is None`)
+            from .idioms import enum_paths, is_none_test
+            ok = True
+            for path in enum_paths(g.body()):
+                if path.end in null:
+                    est = False
+                    for test, pol in path.conds:
+                        nt = is_none_test(test) if isinstance(test, ast.expr) else None
+                        if nt is not None and nt[1] == pol and isinstance(nt[0], ast.Attribute) and nt[0].attr == 'random_state':
+                            est = True
+                    ok = ok and est
+            if ok:
+                rets = good
         if rets and len(good) == len(rets) and not falls_through:
             binding = {}
             for i, a in enumerate(ce.args):
